@@ -4,6 +4,7 @@ import Bmc.Proofs.GenLoops.BuildAndSendCommand
 import Bmc.Proofs.GenLoops.BuildAndSendPayload
 import Bmc.Proofs.EndToEnd.SessionC03
 import Bmc.Proofs.EndToEnd.SessionlessC10
+import Bmc.Proofs.EndToEnd.SessionC10
 #print axioms Bmc.Proofs.C10.session_send_refines
 #print axioms Bmc.Proofs.C10.lost_in_session_stops
 #print axioms Bmc.Proofs.C10.final_is_not_temporary
@@ -27,3 +28,4 @@ import Bmc.Proofs.EndToEnd.SessionlessC10
 #print axioms Bmc.Proofs.EndToEnd.generated_loop_datagrams
 #print axioms Bmc.Proofs.EndToEnd.generated_sessionless_SendCommand_retries
 #print axioms Bmc.Proofs.EndToEnd.generated_sessionless_SendCommand_until_final
+#print axioms Bmc.Proofs.EndToEnd.generated_SendCommand_busy_then_final
